@@ -1,7 +1,7 @@
 (* P_C19 — Leading-term queries, decomposition and constants match the polynomial. *)
 From mathcomp Require Import all_ssreflect all_algebra.
 From SsrMultinomials Require Import mpoly.
-From NP Require Import Base Poly Order Compare Query OrderP Abs Align QueryP.
+From NP Require Import Base Poly Order Compare Query OrderP Abs Align QueryP Clean SetDimP.
 Set Implicit Arguments. Unset Strict Implicit. Unset Printing Implicit Defensive.
 Import GRing.Theory.
 Local Open Scope ring_scope.
@@ -56,6 +56,27 @@ Proof. exact: decompose_slice. Qed.
 Theorem C19_decompose_sum p i : wfb p -> (i < psize p)%N ->
   \sum_(0 <= j < size (rows p)) absE n (decompose p) (j * psize p + i) = absE n p i.
 Proof. exact: decompose_sum. Qed.
+(* set_dimensions: more dimensions = the same polynomials; fewer = exactly the terms without a dropped name *)
+Theorem C19_set_dimensions_grow o p d q i :
+  wfb p -> (size (names p) < d)%N -> set_dimensions o p d = Ok q ->
+  absE n q i = absE n p i /\ shape q = shape p.
+Proof. exact: set_dimensions_grow. Qed.
+
+Theorem C19_set_dimensions_shrink o p d q i :
+  wfb p -> (d < size (names p))%N -> set_dimensions o p d = Ok q ->
+  absE n q i = absL n (names p) i [seq t <- terms p | ~~ has (fun e => e != 0%N) (drop d t.1)] /\ shape q = shape p.
+Proof. exact: set_dimensions_shrink. Qed.
+
+Theorem C19_set_dimensions_same o p : set_dimensions o p (size (names p)) = Ok p.
+Proof. exact: set_dimensions_same. Qed.
+
+Theorem C19_set_dimensions_names o p d q :
+  set_dimensions o p d = Ok q ->
+  names q = if d == size (names p) then names p
+            else if (size (names p) < d)%N
+                 then sort leq (names p ++ fresh_names (names p) (d - size (names p)) (d + size (names p)) 0)
+                 else take d (names p).
+Proof. exact: set_dimensions_names. Qed.
 End Const.
 
 Print Assumptions C19_lead_is_largest.
@@ -67,3 +88,7 @@ Print Assumptions C19_tonumpy.
 Print Assumptions C19_tonumpy_rejects.
 Print Assumptions C19_decompose_slice.
 Print Assumptions C19_decompose_sum.
+Print Assumptions C19_set_dimensions_grow.
+Print Assumptions C19_set_dimensions_shrink.
+Print Assumptions C19_set_dimensions_same.
+Print Assumptions C19_set_dimensions_names.
